@@ -136,7 +136,9 @@ claim("C13",
       "symmetry, inferral: start class inside a non-trivial equivalence class); on every path two fresh searchers go through the real "
       "finder, which must answer None or two specifications that count their own start class correctly, pass the C02 oracle and are "
       "isomorphic - and never raise.",
-      "Trusted: as C01.", "CrossHair symbolic execution (pattern D: solver-enumerated pairs) + z3", "DESIGN.md 2/C13")
+      "Trusted: as C01. Four genuine defects of the finders are recorded (not repaired) in known_findings.json, identified by their exact "
+      "input pairs; they are skipped inside the exploration, replayed at every run and printed as KNOWN-FINDING lines; any other failing "
+      "pair is a VIOLATION.", "CrossHair symbolic execution (pattern D: solver-enumerated pairs) + z3", "DESIGN.md 2/C13, 3")
 claim("C19",
       "Bounded symbolic execution: the DFA table is the solver variable (two-state tables, 512 four-state and 1152 five-state tables "
       "with finite sub-languages), groups = database that produced the original x pack with a pack-offering verification strategy "
